@@ -160,6 +160,20 @@ CLAIMED['C07'] = dict(
          'correspondence + oracle only). Two defects fixed (square result transposed, tuple selector in the N-D path).',
     technique='Coq proof (list/matrix lemmas, case analysis on shapes) + in-Coq correspondence evaluation')
 
+CLAIMED['C20'] = dict(
+    text='Translator-tied proof: on every run harness/effects.py re-parses all pyUSID modules and emits the effect graph (per function: write '
+         'primitives, resolved callees, unclassified calls; reduce specialised to to_hdf5=False by constant-guard pruning). Coq proves that for each '
+         'of the 28 read-side entry points the computed node set contains the entry point, is closed under call edges and is free of write primitives '
+         'and unclassified calls (evaluation over the finite graph), and - by a general lemma about closed sets - that therefore NO call path from '
+         'a read-side entry point reaches a writing function; frame property for any sequence of read calls; sanity theorem that every '
+         'write-side entry point does reach a write primitive. Dynamic validation: random sequences of 26 kinds of read calls on files opened r '
+         '(file SHA-256) and r+ (dump of all datasets/attributes), a tracer on all h5py write entry points, 11 write entry points on a read-only handle.',
+    design='5/C20',
+    note='Trusted: Coq kernel, the effect analysis (name-based call resolution, reviewed tables of external pure / writing callables such as '
+         'get_attr, lazy_load_array, write_simple_attrs), harness. Partial: "write entry points raise on read-only targets" is decided by '
+         'enumeration, not by a theorem.',
+    technique='Coq proof over a graph regenerated from the source by a Python-ast translator (closure check + path lemma) + dynamic digests')
+
 NOT_YET = {}
 
 TITLES = {}
